@@ -331,7 +331,10 @@ class FreeEnergy(InterpolatableFunction):
             "rtol": rTol,
             "atol": tolAbsolute,
             "max_step": dT,
-            "first_step": phaseTracerFirstStep,
+            # phaseTracerFirstStep is given in units of the maximal step dT
+            "first_step": (
+                None if phaseTracerFirstStep is None else phaseTracerFirstStep * dT
+            ),
         }
 
         # iterating over up and down integration directions
